@@ -2,6 +2,7 @@ package main
 
 import (
 	"go/token"
+	"go/types"
 	"strings"
 
 	"golang.org/x/tools/go/ssa"
@@ -102,6 +103,79 @@ func beValueScan(f *ssa.Function, base ssa.Value) []beField {
 		}
 	})
 	return out
+}
+
+// storedFieldOf: the struct field that value v ends up in, following conversions, merges and single-assignment local
+// variables; nil when there is none or more than one.
+func storedFieldOf(v ssa.Value) *types.Var {
+	var found *types.Var
+	many := false
+	seen := map[ssa.Value]bool{}
+	var walk func(x ssa.Value, d int)
+	walk = func(x ssa.Value, d int) {
+		if d > 6 || seen[x] || x.Referrers() == nil {
+			return
+		}
+		seen[x] = true
+		for _, r := range *x.Referrers() {
+			switch y := r.(type) {
+			case *ssa.Convert:
+				walk(y, d+1)
+			case *ssa.ChangeType:
+				walk(y, d+1)
+			case *ssa.Phi:
+				walk(y, d+1)
+			case *ssa.Store:
+				if y.Val != x {
+					continue
+				}
+				if fv, _ := fieldVar(y.Addr); fv != nil {
+					if found != nil && found != fv {
+						many = true
+					}
+					found = fv
+					continue
+				}
+				if a, ok := y.Addr.(*ssa.Alloc); ok && a.Referrers() != nil {
+					for _, r2 := range *a.Referrers() {
+						if ld, isLd := r2.(*ssa.UnOp); isLd {
+							walk(ld, d+1)
+						}
+					}
+				}
+			}
+		}
+	}
+	walk(v, 0)
+	if many {
+		return nil
+	}
+	return found
+}
+
+// constRangeOf: v is base[lo:hi] written with any nesting of constant re-slices (base[:5][3:5] = base[3:5]).
+func constRangeOf(v, base ssa.Value) (lo, hi int64, ok bool) {
+	sl, isSl := v.(*ssa.Slice)
+	if !isSl || sl.High == nil {
+		return 0, 0, false
+	}
+	off, okO := constSliceOffset(sl.X, base)
+	if !okO {
+		return 0, 0, false
+	}
+	l := int64(0)
+	if sl.Low != nil {
+		k, isK := intConst(sl.Low)
+		if !isK {
+			return 0, 0, false
+		}
+		l = k
+	}
+	h, isK := intConst(sl.High)
+	if !isK {
+		return 0, 0, false
+	}
+	return off + l, off + h, true
 }
 
 // beFieldOf: the field whose value v is (looking through integer conversions).
